@@ -266,27 +266,44 @@
 
     /// C04, repair path: a VOLATILE reader never gets a sample written before it was matched, also when it asks for it.
     /// Writer history: one change with an arbitrary sequence number s (1..=1000) written BEFORE the match; a RELIABLE
-    /// reader proxy (VOLATILE or TRANSIENT_LOCAL, symbolic) added by the real add_matched_reader, everything marked as
+    /// reader proxy (VOLATILE here, TRANSIENT_LOCAL in the twin obligation) added by the real add_matched_reader, everything marked as
     /// already sent; the reader then requests s (ACKNACK / requested_changes_set).  The real write_message_reliable then
     /// sends, for a VOLATILE reader, NO DATA (a GAP starting at s instead) and, for a TRANSIENT_LOCAL reader, exactly one
     /// DATA carrying sequence number s.  The message serialization is replaced by a recorder (stub) that notes the kind
     /// and sequence number of every submessage the state machine hands over.
     /// @props C04
     /// @kind bounded
-    /// @tier quick
+    /// @tier extended
     /// @timeout 1500
     /// @bounds writer history of 1 change (4-byte payload, not fragmented); 1 requested change; RtpsMessageWrite::from_submessages replaced by a recording stub
     /// @cbmc --unwind 6 --unwindset memcmp.0:18
     /// @fn RtpsReaderProxy::write_message_reliable, RtpsStatefulWriter::add_matched_reader, RtpsReaderProxy::next_requested_change, CacheChange::as_data_submessage
     #[cfg_attr(kani, kani::proof)]
     #[cfg_attr(kani, kani::stub(RtpsMessageWrite::from_submessages, from_submessages_recorder))]
-    fn c04_requested_change_volatile_gets_gap_transient_local_gets_data() {
+    fn c04_requested_change_volatile_gets_gap() {
+        check_c04_requested(true);
+    }
+
+    /// C04, repair path, TRANSIENT_LOCAL twin: the requested retained sample is sent as DATA with its sequence number.
+    /// @props C04
+    /// @kind bounded
+    /// @tier extended
+    /// @timeout 1500
+    /// @bounds writer history of 1 change (4-byte payload, not fragmented); 1 requested change; RtpsMessageWrite::from_submessages replaced by a recording stub
+    /// @cbmc --unwind 6 --unwindset memcmp.0:18
+    /// @fn RtpsReaderProxy::write_message_reliable, RtpsStatefulWriter::add_matched_reader, RtpsReaderProxy::next_requested_change, CacheChange::as_data_submessage
+    #[cfg_attr(kani, kani::proof)]
+    #[cfg_attr(kani, kani::stub(RtpsMessageWrite::from_submessages, from_submessages_recorder))]
+    fn c04_requested_change_transient_local_gets_data() {
+        check_c04_requested(false);
+    }
+
+    fn check_c04_requested(volatile: bool) {
         let mut w = mk_writer();
         let s: i64 = kani::any();
         kani::assume(s >= 1 && s <= 1000);
         w.changes.push(change(s));
         let g = any_guid();
-        let volatile: bool = kani::any();
         w.add_matched_reader(reader_proxy(g, ReliabilityKind::Reliable,
             if volatile { DurabilityKind::Volatile } else { DurabilityKind::TransientLocal }));
         let writer_id = w.guid.entity_id();
